@@ -20,11 +20,55 @@ def _is_len(e):
     return isinstance(e, tuple) and e and ((e[0] == "call" and (e[1] or "").endswith(("<impl [T]>::len", "UnixStr::len", "Vec::<T, A>::len"))) or e[0] in ("len", "ptrmeta"))
 
 
+def _inside_unix_str(e, n=8):
+    """the length of the byte slice a UnixStr wraps (never empty: it holds at least the terminator, which is what C10 establishes)"""
+    e = strip_casts(e)
+    if isinstance(e, tuple) and e and e[0] == "call" and (e[1] or "").endswith("UnixStr::len"):
+        return True
+    x = e[1] if isinstance(e, tuple) and len(e) > 1 and e[0] in ("len", "ptrmeta") else (e[2][0] if isinstance(e, tuple) and e and e[0] == "call" and e[2] else None)
+    while isinstance(x, tuple) and x and n > 0:
+        x = strip_casts(x)
+        if x[0] in ("ref", "addr"):
+            x = x[2]
+        elif x[0] == "deref":
+            x = x[1]
+        else:
+            break
+        n -= 1
+    return isinstance(x, tuple) and len(x) > 3 and x[0] == "field" and str(x[2]) == "0" and str(x[3]).endswith("unix_str::UnixStr")
+
+
+def _sym(e):
+    """the symbol a length expression stands for; UnixStr::len(x) is the length of the slice x wraps"""
+    e = strip_casts(e)
+    s = canon(e)
+    if isinstance(e, tuple) and e and e[0] == "call" and (e[1] or "").endswith(("UnixStr::len", "UnixString::len")) and s.endswith(")"):
+        s = s[:-1] + ".0)"
+    return s
+
+
 class Intervals:
     def __init__(self, ctx):
         self.ctx, self.cfg, self.fn = ctx, ctx.cfg, ctx.fn
-        self.sym_min = {}          # S -> largest constant known to be <= S wherever the function continues (from early exits)
+        self.sym_facts = {}        # S -> [(k, edge)]: S >= k in every block the edge dominates (an early exit took the other cases away)
+        self.sym_base = {}         # S -> minimum by type invariant (the slice inside a UnixStr holds at least its terminator: C10)
+        self.rel = []              # (Sa, Sb, d, edge): Sa + d <= Sb in every block the edge dominates (a comparison of two lengths)
+        self.cur = 0               # the block whose state is being computed / queried
+        self._dom = {}
         self.state = None
+
+    def _dominated(self, e):
+        key = (e.src, e.dst, self.cur)
+        if key not in self._dom:
+            self._dom[key] = self.cfg.edge_dominates(e, self.cur)
+        return self._dom[key]
+
+    def smin(self, s):
+        best = self.sym_base.get(s, 0)
+        for k, e in self.sym_facts.get(s, ()):
+            if k > best and self._dominated(e):
+                best = k
+        return best
 
     # ---- bounds ------------------------------------------------------------------------------------------------------------------
     def _le(self, a, b):
@@ -34,7 +78,11 @@ class Intervals:
         if a[0] == b[0]:
             return a[1] <= b[1]
         if a[0] is None and b[0] is not None:       # k <= S + j   when  S >= k - j
-            return self.sym_min.get(b[0], 0) + b[1] >= a[1]
+            return self.smin(b[0]) + b[1] >= a[1]
+        if a[0] is not None and b[0] is not None:
+            for sa, sb, d, e in self.rel:           # Sa + d <= Sb  =>  Sa + ka <= Sb + kb  when  ka - d <= kb
+                if sa == a[0] and sb == b[0] and a[1] - d <= b[1] and self._dominated(e):
+                    return True
         return False
 
     def _min(self, a, b):
@@ -45,8 +93,8 @@ class Intervals:
         if self._le(b, a):
             return b
         # incomparable: a sound lower bound is the constant part one can defend
-        c = [x[1] if x[0] is None else self.sym_min.get(x[0], 0) + x[1] for x in (a, b)]
-        return (None, min(c))
+        c = [x[1] if x[0] is None else self.smin(x[0]) + x[1] for x in (a, b)]
+        return (None, max(0, min(c)))
 
     def _max(self, a, b):
         if a is None or b is None:
@@ -70,7 +118,9 @@ class Intervals:
         if not isinstance(e, tuple) or depth > 12:
             return ((None, 0), None)
         if _is_len(e):
-            s = canon(e)
+            s = _sym(e)
+            if s not in self.sym_base:
+                self.sym_base[s] = 1 if _inside_unix_str(e) else 0
             return ((s, 0), (s, 0))
         if e[0] == "var":
             return st.get(e[1], ((None, 0), None))
@@ -139,7 +189,7 @@ class Intervals:
                     a, c = s["rv"]["a"], s["rv"]["b"]
                     if a.get("k") in ("copy", "move") and not a["p"].get("p") and c.get("k") == "const" and isinstance(c.get("value"), int):
                         self._tuples[("tup", s["dst"]["l"])] = ("bin", s["rv"]["op"][:-len("WithOverflow")], ("var", a["p"]["l"]), ("const", c["value"], None, c.get("ty")))
-        # early exits establish minimum lengths: a `len < k` / `len <= k` edge that leads only to returns
+        # early exits establish minimum lengths: past a `len >= k` edge the length is at least k (in the blocks that edge dominates)
         for sb in cfg.live_blocks():
             if cfg.term(sb)["k"] != "switch":
                 continue
@@ -147,40 +197,71 @@ class Intervals:
                 for f in self.ctx.edge_facts(e):
                     if f[0] == "cmp" and _is_len(f[2]) and fold(f[3]) is not None and f[1] in ("Ge", "Gt"):
                         k = fold(f[3]) + (1 if f[1] == "Gt" else 0)
-                        # the complementary edge must not come back
-                        other = [e2 for e2 in cfg.succ[sb] if e2 is not e]
-                        if other and all(not (cfg.reachable_from(e2.dst) & cfg.reachable_from(e.dst)) - set(cfg.return_blocks()) for e2 in other):
-                            s = canon(strip_casts(f[2]))
-                            self.sym_min[s] = max(self.sym_min.get(s, 0), k)
-        IN = {0: {}}
-        visits = {}
+                        sx = strip_casts(f[2])
+                        s = _sym(sx)
+                        self.sym_base.setdefault(s, 1 if _inside_unix_str(sx) else 0)
+                        self.sym_facts.setdefault(s, []).append((k, e))
+                    if f[0] == "cmp" and _is_len(f[2]) and _is_len(f[3]) and f[1] in ("Le", "Lt", "Ge", "Gt"):
+                        a, b2 = _sym(f[2]), _sym(f[3])
+                        for s0 in ((a, f[2]), (b2, f[3])):
+                            self.sym_base.setdefault(s0[0], 1 if _inside_unix_str(s0[1]) else 0)
+                        if f[1] in ("Le", "Lt"):
+                            self.rel.append((a, b2, 1 if f[1] == "Lt" else 0, e))
+                        else:
+                            self.rel.append((b2, a, 1 if f[1] == "Gt" else 0, e))
+                    if f[0] == "cmp" and _is_len(f[3]) and fold(f[2]) is not None and f[1] in ("Le", "Lt"):
+                        k = fold(f[2]) + (1 if f[1] == "Lt" else 0)
+                        sx = strip_casts(f[3])
+                        s = _sym(sx)
+                        self.sym_base.setdefault(s, 1 if _inside_unix_str(sx) else 0)
+                        self.sym_facts.setdefault(s, []).append((k, e))
+        # IN[b] is recomputed from the current OUT of all predecessors (not accumulated), so a bound that an early round got wrong for
+        # want of information does not stick; after ROUNDS visits a block's bounds may only move outwards, and a moving end is widened:
+        # a lower bound to the largest small constant still below it, an upper bound to "unknown" (at loop heads)
+        IN, OUT, visits = {0: {}}, {}, {}
+        heads = {e.dst for e in cfg.back_edges()}        # widening only where a cycle closes; everything else is recomputed afresh
         work = [0]
+        skip = lambda b: b in cfg.unreachable_blocks or cfg.block(b).get("cleanup")   # noqa: E731
         while work:
             b = work.pop(0)
             visits[b] = visits.get(b, 0) + 1
-            out = self._transfer(b, IN[b])
-            for e in cfg.succ[b]:
-                if e.dst in cfg.unreachable_blocks or cfg.block(e.dst).get("cleanup"):
+            if b != 0:
+                sts = []
+                for e in cfg.pred[b]:
+                    if e.src in OUT and not skip(e.src):
+                        self.cur = e.src
+                        sts.append(self._refine(dict(OUT[e.src]), e))
+                if not sts:
                     continue
-                st2 = self._refine(dict(out), e)
-                old = IN.get(e.dst)
-                if old is None:
-                    IN[e.dst] = st2
-                    work.append(e.dst)
-                    continue
+                self.cur = b
                 new = {}
-                for l in set(old) & set(st2):
-                    lo = self._min(old[l][0], st2[l][0])
-                    hi = self._max(old[l][1], st2[l][1])
-                    if visits.get(e.dst, 0) > ROUNDS:
-                        # still moving after many rounds: give the moving end up
-                        lo = lo if lo == old[l][0] else (None, 0)
-                        hi = hi if hi == old[l][1] else None
+                for l in set.intersection(*[set(x) for x in sts]):
+                    lo, hi = sts[0][l]
+                    for x in sts[1:]:
+                        lo, hi = self._min(lo, x[l][0]), self._max(hi, x[l][1])
                     new[l] = (lo if lo is not None else (None, 0), hi)
-                if new != old:
-                    IN[e.dst] = new
-                    if e.dst not in work:
+                old = IN.get(b)
+                if old is not None and ((b in heads and visits[b] > ROUNDS) or visits[b] > 6 * ROUNDS):
+                    wid = {}
+                    for l in set(old) & set(new):
+                        lo, hi = self._min(old[l][0], new[l][0]), self._max(old[l][1], new[l][1])
+                        if lo != old[l][0]:
+                            c = 0 if lo is None else (lo[1] if lo[0] is None else self.smin(lo[0]) + lo[1])
+                            lo = (None, max([t for t in (0, 1, 2, 3, 4, 8) if t <= c] or [0]))
+                        if hi != old[l][1]:
+                            hi = None
+                        wid[l] = (lo if lo is not None else (None, 0), hi)
+                    new = wid
+                IN[b] = new
+            self.cur = b
+            out = self._transfer(b, IN[b])
+            if OUT.get(b) != out or visits[b] == 1:
+                OUT[b] = out
+                for e in cfg.succ[b]:
+                    if not skip(e.dst) and e.dst not in work:
                         work.append(e.dst)
+            if visits[b] > 40 * ROUNDS:
+                raise RuntimeError("interval analysis does not settle")
         self.state = IN
         return self
 
@@ -215,8 +296,14 @@ class Intervals:
     # ---- queries -------------------------------------------------------------------------------------------------------------------
     def edge_infeasible(self, e):
         """the comparison on a switch edge contradicts the intervals at its source block"""
+        self.cur = e.src
         st = self._transfer(e.src, self.state.get(e.src, {}))
         for f in self.ctx.edge_facts(e):
+            if f[0] == "truth" and f[2] in (True, 1) and isinstance(f[1], tuple) and f[1][0] == "call" and (f[1][1] or "").endswith("::is_empty") and f[1][2]:
+                # `x.is_empty()` cannot hold for a length known to be at least 1
+                le = ("len", f[1][2][0])
+                if _inside_unix_str(le) or self.smin(_sym(le)) >= 1:
+                    return True
             if f[0] != "cmp":
                 continue
             (alo, ahi), (blo, bhi) = self.eval(f[2], st), self.eval(f[3], st)
